@@ -163,7 +163,8 @@ Reset ==
 Mid(c) == <<c, cli[c].n + 1>>
 Last(res, pos, inst, a) == [res |-> res, pos |-> pos, inst |-> inst, a |-> a]
 Began(c, o, m, a, stage, hold) ==
-  [cli EXCEPT ![c] = [@ EXCEPT !.n = @ + 1, !.stage = stage, !.op = o.op, !.h = o.h, !.m = m, !.ta = a, !.hold = hold]]
+  [cli EXCEPT ![c] = [@ EXCEPT !.n = @ + 1, !.stage = stage, !.op = o.op, !.h = o.h, !.m = m, !.ta = a, !.hold = hold,
+                             !.nest = IF c \in Actor THEN "run" ELSE @]]       \* an operation begun by an actor is a nested one
 Finished(C, c, last) ==
   [C EXCEPT ![c] = [@ EXCEPT !.stage = "idle", !.ta = "none", !.hold = NoHold, !.last = last, !.dl = -1,
                              !.nest = IF @ = "run" THEN "done" ELSE @]]
@@ -735,6 +736,20 @@ ScriptStep(a) ==
                  /\ UNCHANGED <<act, hnd, rsp, tmr, reg, now>>
             ELSE \* the nested operation has returned
                  /\ cli[a].nest = "done"
+                 /\ cli' = [cli EXCEPT ![a].nest = "none"]
+                 /\ act' = [act EXCEPT ![a].ip = @ + 1]
+                 /\ UNCHANGED <<hnd, rsp, tmr, reg, now, hst>>
+       [] e.e \in {"call_peer", "send_peer"} ->   \* the handler calls / sends to ANOTHER actor through an Addr it was given (e.s)
+            LET x == e.s
+                o == [op |-> IF e.e = "call_peer" THEN "call" ELSE "send", h |-> x, nh |-> "none", scr |-> <<>>]
+                have == x \in DOMAIN hnd /\ hnd[x].owner = a /\ hnd[x].kind = "addr"
+            IN
+            IF cli[a].nest = "none"
+            THEN IF have
+                 THEN (IF e.e = "call_peer" THEN SubmitForce(a, o) ELSE SubmitWait(a, o))      \* a nested operation of the actor (nest = "run")
+                 ELSE /\ act' = [act EXCEPT ![a].ip = @ + 1]                                     \* no such handle: nothing happens
+                      /\ UNCHANGED <<hnd, cli, rsp, tmr, reg, now, hst>>
+            ELSE /\ cli[a].nest = "done"
                  /\ cli' = [cli EXCEPT ![a].nest = "none"]
                  /\ act' = [act EXCEPT ![a].ip = @ + 1]
                  /\ UNCHANGED <<hnd, rsp, tmr, reg, now, hst>>
